@@ -26,7 +26,7 @@ from . import rot
 LEVEL = 'other'
 UNITS = ['src/transform/SmartRotation3D.cpp', 'src/geometry/Pose3D.cpp', 'src/regression/leastsquares/LeastSquares.cpp', 'verif:inst_math.cpp']
 ENGINES = 'E-ALG + E-SIB over romea-facts'
-TECHNIQUE = 'every path of a forked init() compared with the reference path on angles that select it, raw factors of the pivoted LDLT, known findings matched by a numeric fingerprint of the observed deviation, forwarding of the angles by every constructor and init overload, every denominator met while the Jacobian is assembled evaluated on exact quarter-turn and permutation rotations, derivative accessors and dRTdAngles observed on first access after init(), covariance query read a second time on the state it left, tolerance-skip path of the covariance propagation, sweep of every function read (and its in-repo callees) for frozen function-local statics, single precision inside double computations, lossy copy constructors, presence- or argument-keyed member caches, reference members bound to constructor arguments, loop accumulators that are members, members derived in the constructor and not refreshed by setters, results returned by reference to a member buffer, members filled from an argument under a condition that ignores it, hidden non-virtual base members, self-bound reference members, reductions that accumulate in float; re-initialisation paths (stale derivative tables), Cholesky of a covariance the quantifier allows to be singular; solver rules of C07 evaluated under this property (G5: the stored inverse is (J^T J)^-1 of the current rows); matrix-valued formula extraction from the AST and exact computer algebra: formal differentiation of the rotation tables, symbolic Jacobian of the library\'s own pose map, congruence form of the propagated covariances'
+TECHNIQUE = 'pointer tables into own members under compiler-generated copies (sweep H12), refresh-on-demand flags (sweep H15), every path of a forked init() compared with the reference path on angles that select it, raw factors of the pivoted LDLT, known findings matched by a numeric fingerprint of the observed deviation, forwarding of the angles by every constructor and init overload, every denominator met while the Jacobian is assembled evaluated on exact quarter-turn and permutation rotations, derivative accessors and dRTdAngles observed on first access after init(), covariance query read a second time on the state it left, tolerance-skip path of the covariance propagation, sweep of every function read (and its in-repo callees) for frozen function-local statics, single precision inside double computations, lossy copy constructors, presence- or argument-keyed member caches, reference members bound to constructor arguments, loop accumulators that are members, members derived in the constructor and not refreshed by setters, results returned by reference to a member buffer, members filled from an argument under a condition that ignores it, hidden non-virtual base members, self-bound reference members, reductions that accumulate in float; re-initialisation paths (stale derivative tables), Cholesky of a covariance the quantifier allows to be singular; solver rules of C07 evaluated under this property (G5: the stored inverse is (J^T J)^-1 of the current rows); matrix-valued formula extraction from the AST and exact computer algebra: formal differentiation of the rotation tables, symbolic Jacobian of the library\'s own pose map, congruence form of the propagated covariances'
 EXPLANATION = ('The rotation and derivative tables of SmartRotation3D, the 6x6 Jacobian assembled in operator*(Affine3d, Pose3D) and the covariance formulas are extracted as exact symbolic matrices '
                'and compared with formal derivatives / the congruence J C J^T. Genuine deviations already present in the library are listed as known findings and printed as KNOWN-FINDING.')
 ASSUMPTIONS = ['exact real arithmetic; |pitch| < pi/2 before and after the transformation; C symmetric',
